@@ -12,6 +12,7 @@ import (
 	"sort"
 	"strconv"
 	"strings"
+	"sync"
 	"time"
 
 	"golang.org/x/tools/go/ssa"
@@ -191,6 +192,8 @@ func cmdCheck(args []string) {
 	}
 }
 
+var staleNotes, supportNotes []string
+
 type propResult struct {
 	ev        *evidence
 	engineErr string
@@ -248,6 +251,7 @@ func runProperty(p *Program, id, tier string, seed int, findings []*finding) *pr
 		}
 	}
 	sort.Strings(order)
+	tGen := time.Now()
 	// 2. obligations
 	var jobs []job
 	for _, k := range order {
@@ -256,7 +260,61 @@ func runProperty(p *Program, id, tier string, seed int, findings []*finding) *pr
 			jobs = append(jobs, job{vc, o})
 		}
 	}
-	dischargeAll(jobs, opts)
+	if f := os.Getenv("GOVC_DUMPNAMES"); f != "" {
+		var b strings.Builder
+		for _, j := range jobs {
+			b.WriteString(j.o.Name + "\n")
+		}
+		os.WriteFile(f, []byte(b.String()), 0o644)
+	}
+	// obligations named by a listed finding: decide them under the negated region first (the usual
+	// outcome, and one the verdict cache remembers); the unrestricted attempt, which is expected to
+	// time out, then only gets a short budget (it tells whether the finding has become stale)
+	var plain []job
+	preKnown := map[*Obligation]*finding{}
+	var kmu sync.Mutex
+	var kwg sync.WaitGroup
+	for _, j := range jobs {
+		var hit *finding
+		for _, f := range findings {
+			if f.Kind == "finding" && f.re.MatchString(j.o.Name) {
+				hit = f
+				break
+			}
+		}
+		if hit == nil {
+			plain = append(plain, j)
+			continue
+		}
+		tries := regionCandidates(findings, j.o, j.vc)
+		j.vc.fingerprint()
+		kwg.Add(1)
+		go func(j job) {
+			defer kwg.Done()
+			if kf := decideRegions(tries, j.vc, opts); kf != nil {
+				short := opts
+				short.timeout = 3 * time.Second
+				discharge(j.vc, j.o, short)
+				kmu.Lock()
+				defer kmu.Unlock()
+				if j.o.Status == "proved" {
+					staleNotes = append(staleNotes, fmt.Sprintf("NOTE: listed finding no longer reproduces (obligation %s now discharges): %s", j.o.Name, kf.What))
+				} else {
+					j.o.Status = "unknown"
+					preKnown[j.o] = kf
+				}
+				return
+			}
+			// the region does not cover the failure: decide it like any other obligation
+			discharge(j.vc, j.o, opts)
+		}(j)
+	}
+	kwg.Wait()
+	tKnown := time.Now()
+	dischargeAll(plain, opts)
+	if os.Getenv("GOVC_STATS") != "" {
+		fmt.Fprintf(os.Stderr, "phases: known-findings %.1fs, discharge %.1fs\n", tKnown.Sub(tGen).Seconds(), time.Since(tKnown).Seconds())
+	}
 
 	// 3. classify
 	type row struct {
@@ -294,11 +352,17 @@ func runProperty(p *Program, id, tier string, seed int, findings []*finding) *pr
 			engineErrs = append(engineErrs, o.Name+": "+o.Detail)
 		default:
 			// failed or unknown: known finding?
-			kf := matchFinding(findings, o, j.vc, opts)
+			kf := preKnown[o]
+			if kf == nil {
+				kf = matchFinding(findings, o, j.vc, opts)
+			}
 			if kf != nil {
 				o.Known = kf.What
-				line := fmt.Sprintf("KNOWN-FINDING: property=%s %s [%s]", kf.Property, kf.What, o.Name)
-				knownLines = append(knownLines, line)
+				if strings.Contains(","+kf.Property+",", ","+id+",") {
+					knownLines = append(knownLines, fmt.Sprintf("KNOWN-FINDING: property=%s %s [%s]", id, kf.What, o.Name))
+				} else {
+					supportNotes = append(supportNotes, fmt.Sprintf("NOTE: a contract this proof relies on has a listed finding of property %s: %s [%s]", kf.Property, kf.What, o.Name))
+				}
 				discharged++ // holds outside the listed region
 				byBackend["known-finding-region"]++
 			} else {
@@ -389,12 +453,22 @@ func runProperty(p *Program, id, tier string, seed int, findings []*finding) *pr
 		cov["engine_errors"] = engineErrs
 	}
 
+	if os.Getenv("GOVC_STATS") != "" {
+		fmt.Fprintf(os.Stderr, "cache: batch hit %d miss %d, single hit %d miss %d\n", statBatchHit, statBatchMiss, statSingleHit, statSingleMiss)
+	}
 	// 4. report
 	fmt.Printf("govc check %s (%s): %d functions, %d obligations (%d tagged %s, %d supporting), %d discharged, %d known findings, %d violations, solver %.1fs\n",
 		id, tier, len(order), len(jobs), nDirect, id, nSupport, discharged, len(knownLines), violations, solverTime)
 	for _, l := range knownLines {
 		fmt.Println(l)
 	}
+	for _, l := range staleNotes {
+		fmt.Println(l)
+	}
+	for _, l := range supportNotes {
+		fmt.Println(l)
+	}
+	cov["findings_in_supporting_contracts"] = supportNotes
 	for _, l := range violLines {
 		fmt.Println(l)
 	}
@@ -431,7 +505,63 @@ func (vc *VC) usedContracts() []string {
 
 // matchFinding: is the failure of o covered by a listed finding?  Covered means: the obligation
 // discharges once the finding's region is excluded.
+type regionTry struct {
+	f  *finding
+	o2 *Obligation // nil: the finding covers the whole obligation
+}
+
+// regionCandidates evaluates the regions of the findings that name o (sequential: it touches the VC)
+func regionCandidates(findings []*finding, o *Obligation, vc *VC) []regionTry {
+	var out []regionTry
+	for _, f := range findings {
+		if f.Kind != "finding" || !f.re.MatchString(o.Name) {
+			continue
+		}
+		if f.Region == "" || f.Region == "true" {
+			out = append(out, regionTry{f, nil})
+			continue
+		}
+		e, err := parseSpecExpr(f.Region)
+		if err != nil {
+			fmt.Fprintf(os.Stderr, "govc: KNOWN_FINDINGS region does not parse: %v\n", err)
+			continue
+		}
+		env := vc.entryEnv()
+		if o.EnvFn != nil {
+			env = o.EnvFn()
+		}
+		s, err := env.evalBool(e)
+		if err != nil {
+			fmt.Fprintf(os.Stderr, "govc: KNOWN_FINDINGS region for %s: %v\n", o.Name, err)
+			continue
+		}
+		o2 := *o
+		o2.Goal = implies(not(s), o.Goal)
+		o2.Status = ""
+		out = append(out, regionTry{f, &o2})
+	}
+	return out
+}
+
+// decideRegions: the first finding whose negated region makes the obligation discharge (solver only)
+func decideRegions(tries []regionTry, vc *VC, opts solveOpts) *finding {
+	for _, t := range tries {
+		if t.o2 == nil {
+			return t.f
+		}
+		discharge(vc, t.o2, solveOpts{timeout: opts.timeout, noCache: opts.noCache})
+		if t.o2.Status == "proved" {
+			return t.f
+		}
+	}
+	return nil
+}
+
 func matchFinding(findings []*finding, o *Obligation, vc *VC, opts solveOpts) *finding {
+	return decideRegions(regionCandidates(findings, o, vc), vc, opts)
+}
+
+func matchFindingOld(findings []*finding, o *Obligation, vc *VC, opts solveOpts) *finding {
 	base := o.Name
 	for _, f := range findings {
 		if f.Kind != "finding" || !f.re.MatchString(base) {
@@ -446,6 +576,9 @@ func matchFinding(findings []*finding, o *Obligation, vc *VC, opts solveOpts) *f
 			continue
 		}
 		env := vc.entryEnv()
+		if o.EnvFn != nil {
+			env = o.EnvFn()
+		}
 		s, err := env.evalBool(e)
 		if err != nil {
 			fmt.Fprintf(os.Stderr, "govc: KNOWN_FINDINGS region for %s: %v\n", o.Name, err)
@@ -454,7 +587,7 @@ func matchFinding(findings []*finding, o *Obligation, vc *VC, opts solveOpts) *f
 		o2 := *o
 		o2.Goal = implies(not(s), o.Goal)
 		o2.Status = ""
-		discharge(vc, &o2, solveOpts{timeout: opts.timeout, noCache: true})
+		discharge(vc, &o2, solveOpts{timeout: opts.timeout, noCache: opts.noCache})
 		if o2.Status == "proved" {
 			return f
 		}
